@@ -582,12 +582,30 @@ pub fn result_json(ctx: &Ctx, meta: &PropMeta, out: RunOutput, wall_s: f64) -> V
     for (k, v) in rec.bins_dyn.iter() {
         *bins.entry(k.clone()).or_insert(0) += *v;
     }
-    let empty_bins: Vec<String> = meta
+    for (k, name) in crate::model::instant::ROUTE_NAMES.iter().enumerate() {
+        let n = crate::model::instant::ROUTE_MASKED[k].load(std::sync::atomic::Ordering::Relaxed);
+        if n > 0 {
+            bins.insert(format!("masked-route/{}(read-out disagrees with the model; another property's matter)", name), n);
+        }
+    }
+    for (k, name) in crate::props::diff::TROUTE_NAMES.iter().enumerate() {
+        let n = crate::props::diff::TROUTE_MASKED[k].load(std::sync::atomic::Ordering::Relaxed);
+        if n > 0 {
+            bins.insert(format!("masked-route/{}(read-out disagrees with the model; another property's matter)", name), n);
+        }
+    }
+    let skipped: u64 = bins.iter().filter(|(k, _)| k.starts_with("skipped/")).map(|(_, v)| *v).sum();
+    let mut empty_bins: Vec<String> = meta
         .required_bins
         .iter()
         .filter(|b| bins.get(**b).copied().unwrap_or(0) == 0)
         .map(|b| b.to_string())
         .collect();
+    let total_cases: u64 = out.workloads.iter().map(|(_, c, _)| *c).sum();
+    if skipped * 2 > total_cases.max(1) {
+        // more than half of the cases could not be judged: that is "too few events", not "held"
+        empty_bins.push(format!("judged-cases({}-skips-in-{}-cases:values-not-trustworthy)", skipped, total_cases));
+    }
     let apis: BTreeMap<String, u64> = rec.apis.iter().map(|(k, v)| (k.to_string(), *v)).collect();
     let outcomes: BTreeMap<String, u64> = rec.outcomes.iter().map(|(k, v)| (k.to_string(), *v)).collect();
 
